@@ -272,7 +272,7 @@ func (vc *FuncVC) havoc(st *State, mods []modLoc, allocGrows bool) {
 			anyMod = true
 		case "obj", "tree":
 			objMod = true
-		case "addr":
+		case "addr", "fieldsof":
 			addrSorts[m.sort] = true
 		case "map":
 			mapMods = append(mapMods, m)
@@ -292,7 +292,7 @@ func (vc *FuncVC) havoc(st *State, mods []modLoc, allocGrows bool) {
 			}
 			var hm []modLoc
 			for _, m := range mods {
-				if m.kind == "obj" || m.kind == "tree" || (m.kind == "addr" && m.sort == es) {
+				if m.kind == "obj" || m.kind == "tree" || ((m.kind == "addr" || m.kind == "fieldsof") && m.sort == es) {
 					hm = append(hm, m)
 				}
 			}
@@ -400,7 +400,7 @@ func (vc *FuncVC) builtin(b *ssa.BasicBlock, ins ssa.Instruction, bi *ssa.Builti
 			var goals []Term
 			for _, fr := range vc.activeFrames(b) {
 				goals = append(goals, Or(App(SBool, ">", total, App(SInt, "scap", s)), Eq(m, IntLit(0)), Not(Select(fr.allocPre, App(SRef, "root", App(SRef, "sarr", s)), SBool)),
-					vc.modPred(fr.mods, vc.elemAddr(App(SRef, "sarr", s), App(SInt, "+", App(SInt, "soff", s), n)))))
+					vc.modPred(fr.mods, slElem(s, n))))
 			}
 			vc.oblige("frame", "", "append to "+c.Args[0].Name()+" does not write a pre-existing backing array in place (or it is listed in modifies)", pos, reach, And(goals...))
 		}
@@ -415,9 +415,9 @@ func (vc *FuncVC) builtin(b *ssa.BasicBlock, ins ssa.Instruction, bi *ssa.Builti
 				vc.emit("(assert %s)", Forall([]Term{r}, Implies(Not(Eq(App(SRef, "root", r), App(SRef, "root", arrR))), Eq(Select(nv, r, ls), Select(old, r, ls))), Select(nv, r, ls)).S)
 			}
 			j := vc.boundVar("j", SInt)
-			resElem := vc.elemAddr(arrR, App(SInt, "+", App(SInt, "soff", res), j))
-			sElem := vc.elemAddr(App(SRef, "sarr", s), App(SInt, "+", App(SInt, "soff", s), j))
-			tElem := vc.elemAddr(App(SRef, "sarr", t), App(SInt, "+", App(SInt, "soff", t), App(SInt, "-", j, n)))
+			resElem := slElem(res, j)
+			sElem := slElem(s, j)
+			tElem := slElem(t, App(SInt, "-", j, n))
 			lhs := vc.load(st, resElem, es)
 			vc.emit("(assert %s)", Implies(reach, Forall([]Term{j}, Implies(And(App(SBool, "<=", IntLit(0), j), App(SBool, "<", j, n)), Eq(lhs, vc.load(pre, sElem, es))))).S)
 			vc.emit("(assert %s)", Implies(reach, Forall([]Term{j}, Implies(And(App(SBool, "<=", n, j), App(SBool, "<", j, total)), Eq(lhs, vc.load(pre, tElem, es))))).S)
@@ -455,8 +455,8 @@ func (vc *FuncVC) builtin(b *ssa.BasicBlock, ins ssa.Instruction, bi *ssa.Builti
 		}
 		if src.Sort == SSlice {
 			j := vc.boundVar("j", SInt)
-			dElem := vc.elemAddr(arrD, App(SInt, "+", App(SInt, "soff", dst), j))
-			sElem := vc.elemAddr(App(SRef, "sarr", src), App(SInt, "+", App(SInt, "soff", src), j))
+			dElem := slElem(dst, j)
+			sElem := slElem(src, j)
 			vc.emit("(assert %s)", Implies(reach, Forall([]Term{j}, Implies(And(App(SBool, "<=", IntLit(0), j), App(SBool, "<", j, nres)), Eq(vc.load(st, dElem, es), vc.load(pre, sElem, es))))).S)
 		}
 		set(nres)
